@@ -208,9 +208,19 @@ def c15_case(ctx, rng, n_targets, kill_at, flt):
             time.sleep(kill_at); lst.kill()
         if kill_at == "handshake":
             time.sleep(0.3); lst.kill()
-        so, se = p.communicate(timeout=180)
+        hung = False
+        try: so, se = p.communicate(timeout=90)
+        except subprocess.TimeoutExpired:
+            # the run without a listener took seconds: not finishing at all is the strongest possible difference
+            hung = True; p.kill(); so, se = p.communicate()
+            subprocess.run(["pkill", "-f", rr.repo], capture_output=True)
         if lst.poll() is None: lst.kill()
         lst.communicate()
+        if hung:
+            ctx.count("run_hung")
+            ctx.record({"targets": n_targets, "listener_killed": kill_at, "filters": flt, "script": script}, True, False, False, True,
+                       detail={"what": "with the listener (killed at %s) the run did not finish within 90 s; without a listener it exited with rc=%s" % (kill_at, base["rc"])})
+            return
         try: out1 = json.loads(so.decode().strip().splitlines()[-1])
         except Exception: out1 = None
         got = outcome(rr, p.returncode, out1)
@@ -246,7 +256,7 @@ def c15_case(ctx, rng, n_targets, kill_at, flt):
     finally:
         rr.close()
 
-def c20_case(ctx, rng, n_targets, flt, crlf=False, burst=0, paused=0):
+def c20_case(ctx, rng, n_targets, flt, crlf=False, burst=0, paused=0, extra_cmds=()):
     """paused > 0: whoever reads the listener's output (a pager, a slow pipe, a stopped job) does not read for that many seconds
     while the run produces far more than the pipe and socket buffers hold; afterwards it reads everything."""
     if paused: cfg, script, written = make_volume_case(rng, n_targets, 2)
@@ -254,8 +264,11 @@ def c20_case(ctx, rng, n_targets, flt, crlf=False, burst=0, paused=0):
     if crlf:
         t0 = cfg["targets"][0]["path"]
         script["build|%s" % t0]["chunks"].append([1, b"dos line\r\n".hex(), 0]); written[t0]["stdout"].append((b"dos line\r\n", 0))
-    rr = runscen.RunRepo(ctx, cfg, commands=["build"])
+    # several commands in one run (those before/after "build" print one default line per stream); the listener may filter on commands
+    run_cmds = [c for c in extra_cmds if c < "build"] + ["build"] + [c for c in extra_cmds if c > "build"]
+    rr = runscen.RunRepo(ctx, cfg, commands=run_cmds)
     try:
+        script["*"] = {}
         rr.script = script; rr.write_script()
         lst = start_listener(rr, flt)
         import threading
@@ -267,7 +280,7 @@ def c20_case(ctx, rng, n_targets, flt, crlf=False, burst=0, paused=0):
                 if not b: break
                 got.extend(b)
         th = threading.Thread(target=pump, daemon=True); th.start()
-        rc, out, err, raw = rr.run("-c", "build", timeout=300 if paused else 180)
+        rc, out, err, raw = rr.run("-c", *run_cmds, timeout=300 if paused else 180)
         # the listener prints line by line; wait until it has drained what the run sent (no growth for 1 s, at most 90 s)
         last, quiet, t0 = -1, 0, time.time()
         while quiet < 5 and time.time() - t0 < 90:
@@ -279,7 +292,7 @@ def c20_case(ctx, rng, n_targets, flt, crlf=False, burst=0, paused=0):
         except subprocess.TimeoutExpired: lst.kill()
         th.join(timeout=5)
         lo = bytes(got)
-        case = {"targets": n_targets, "filters": flt, "crlf": crlf, "burst": burst, "paused": paused, "script": script if not (burst or paused) else "generated"}
+        case = {"targets": n_targets, "filters": flt, "crlf": crlf, "burst": burst, "paused": paused, "extra_cmds": list(extra_cmds), "script": script if not (burst or paused) else "generated"}
         if out is None:
             ctx.record(case, True, False, False, True, detail={"what": "run failed", "rc": rc, "err": err}); return
         logs = stored_logs(rr, out)
@@ -288,27 +301,34 @@ def c20_case(ctx, rng, n_targets, flt, crlf=False, burst=0, paused=0):
         body = lines[1] if len(lines) == 2 and lines[0].startswith(b"[monorail | ") and b"\x1b" not in lines[0] else lo
         blocks, junk = parse_blocks(body)
         want_streams = [s for s in ("stdout", "stderr") if "--" + s in flt]
-        tsel = flt[flt.index("-t") + 1:] if "-t" in flt else None
-        if tsel is not None:
-            tsel = [x for x in tsel if not x.startswith("-")]
+        def sel(flag):
+            if flag not in flt: return None
+            out_ = []
+            for x in flt[flt.index(flag) + 1:]:
+                if x.startswith("-"): break
+                out_.append(x)
+            return out_
+        tsel, csel = sel("-t"), sel("-c")
         problems = []
         for (fname, tpath, cmd), data in blocks.items():
-            if fname[:-4] not in want_streams or (tsel is not None and tpath not in tsel): problems.append({"block_outside_filters": [fname, tpath, cmd]})
-        for tpath in written:
-            for sname in ("stdout", "stderr"):
-                admitted = sname in want_streams and (tsel is None or tpath in tsel)
-                stored = logs.get(os.path.join("build", runscen.thash(tpath), sname + ".zst")) or b""
-                got = blocks.get((sname + ".zst", tpath, "build"), b"")
-                if admitted and got != stored:
-                    problems.append({"target": tpath, "stream": sname, "tailed": len(got), "stored": len(stored),
-                                     "tailed_tail": got[-40:].decode("latin1"), "stored_tail": stored[-40:].decode("latin1")})
+            if fname[:-4] not in want_streams or (tsel is not None and tpath not in tsel) or (csel is not None and cmd not in csel):
+                problems.append({"block_outside_filters": [fname, tpath, cmd]})
+        for cmd in run_cmds:
+            for tpath in written:
+                for sname in ("stdout", "stderr"):
+                    admitted = sname in want_streams and (tsel is None or tpath in tsel) and (csel is None or cmd in csel)
+                    stored = logs.get(os.path.join(cmd, runscen.thash(tpath), sname + ".zst")) or b""
+                    got_b = blocks.get((sname + ".zst", tpath, cmd), b"")
+                    if admitted and got_b != stored:
+                        problems.append({"command": cmd, "target": tpath, "stream": sname, "tailed": len(got_b), "stored": len(stored),
+                                         "tailed_tail": got_b[-40:].decode("latin1"), "stored_tail": stored[-40:].decode("latin1")})
         if junk.strip(): problems.append({"output_outside_blocks": junk[:80].decode("latin1")})
         t0p = cfg["targets"][0]["path"]
         adm0 = "stdout" in want_streams and (tsel is None or t0p in tsel)
         v = ctx.model.call("reader", events_of(written[t0p]["stdout"]), adm0, [], logs.get(os.path.join("build", runscen.thash(t0p), "stdout.zst")) or b"",
                            [blocks.get(("stdout.zst", t0p, "build"), b"")])
         ok = not problems
-        ctx.count("filters_%s" % ("targets" if tsel is not None else "all")); ctx.count("crlf" if crlf else "lf"); ctx.count("reader_paused_%ds" % paused)
+        ctx.count("filters_%s" % ("targets" if tsel is not None else "all")); ctx.count("crlf" if crlf else "lf"); ctx.count("reader_paused_%ds" % paused); ctx.count("commands_in_run_%d" % len(run_cmds)); ctx.count("command_filter" if csel is not None else "no_command_filter")
         ctx.record(case, True, bool(v[2]), ok, True,
                    sample={"targets": n_targets, "filters": flt, "blocks": len(blocks), "tail_bytes": len(lo)},
                    detail={"problems": problems[:5], "model_agrees": bool(v[2])})
@@ -333,6 +353,10 @@ def run(ctx, scale, focus):
                 (3, ["--stdout", "--stderr"], True, 0), (6, ["--stdout", "--stderr"], False, 3000)]
         if not ctx.quick(): plan = plan * 10
         for n, flt, crlf, burst in plan * scale: c20_case(ctx, random.Random(rng.getrandbits(32)), n, flt, crlf, burst)
+        # several commands in one run, the listener admitting only some of them (excluded ones come first, last, or in between)
+        cplan = [(4, ["--stdout", "--stderr", "-c", "build"], ("a_prep", "z_post")), (3, ["--stdout", "-c", "z_post", "build"], ("a_prep", "z_post"))]
+        if not ctx.quick(): cplan = cplan * 5 + [(4, ["--stdout", "--stderr", "-c", "a_prep"], ("a_prep", "z_post")), (4, ["--stderr", "-c", "z_post", "-t", "t00", "t01"], ("a_prep", "z_post"))] * 3
+        for n, flt, extra in cplan * scale: c20_case(ctx, random.Random(rng.getrandbits(32)), n, flt, False, 0, 0, extra)
         for n, secs in ([(6, 3)] if ctx.quick() else [(6, 3), (8, 5), (4, 2)]) * scale:
             c20_case(ctx, random.Random(rng.getrandbits(32)), n, ["--stdout", "--stderr"], False, 0, paused=secs)
 
@@ -341,5 +365,5 @@ def replay(ctx, case, focus):
     rng = random.Random(ctx.seed)
     if focus == "C08": c08_case(ctx, rng, c.get("targets", 4), c.get("kind", "mixed"), c.get("listener", "none"))
     elif focus == "C15": c15_case(ctx, rng, c.get("targets", 4), c.get("listener_killed", 0.25), c.get("filters", ["--stdout", "--stderr"]))
-    else: c20_case(ctx, rng, c.get("targets", 4), c.get("filters", ["--stdout", "--stderr"]), c.get("crlf", False), c.get("burst", 0), c.get("paused", 0))
+    else: c20_case(ctx, rng, c.get("targets", 4), c.get("filters", ["--stdout", "--stderr"]), c.get("crlf", False), c.get("burst", 0), c.get("paused", 0), tuple(c.get("extra_cmds", ())))
     return {"spec_failures": [d for _, d in ctx.spec_failures][:3], "disagreements": [d for _, d in ctx.tie_breaks][:3]}
